@@ -78,7 +78,16 @@ func cmdCheck(mode string, args []string) int {
 			all = append(all, r.VC.Obs...)
 		}
 	}
-	solveAll(all, solveOpts{TimeoutS: cf.timeout, Workers: cf.workers, Dir: dir, Keep: keep, Only: cf.only, Models: true})
+	// goals about a state-dependent recursive spec function after an append are proved by cases
+	// (in place / reallocated) straight away: the undivided query regularly times out
+	var first []*Obligation
+	for _, ob := range all {
+		if !ob.ExpectSat && mentionsStateRec(ob.Goal) && splitOnAppend(ob, cf, dir, keep) {
+			continue
+		}
+		first = append(first, ob)
+	}
+	solveAll(first, solveOpts{TimeoutS: cf.timeout, Workers: cf.workers, Dir: dir, Keep: keep, Only: cf.only, Models: true})
 
 	var bl Baseline
 	loadJSON(filepath.Join(cf.verif, "baseline", "obligations.json"), &bl)
@@ -236,6 +245,7 @@ func report(cf *checkFlags, eng *Eng, bl *Baseline, kf *KnownFile, results []*Fu
 	solverCnt := map[string]int{}
 	var funcs, assumed, abstracted, trusted []string
 	var errs []string
+	var bindingViol [][2]string
 	for _, r := range results {
 		if r.Assumed {
 			assumed = append(assumed, r.Name)
@@ -243,6 +253,22 @@ func report(cf *checkFlags, eng *Eng, bl *Baseline, kf *KnownFile, results []*Fu
 		}
 		if r.Err != "" {
 			errs = append(errs, r.Name+": "+r.Err)
+			// A function whose obligations were discharged on the unchanged tree and whose
+			// contract no longer binds to the code (a name it mentions is gone, a construct
+			// is outside the subset): the property is no longer established for it. That is
+			// reported as a violation of the named pseudo-obligation, not passed over.
+			claimed := false
+			for n := range base {
+				if strings.HasPrefix(n, r.Name+"#") {
+					claimed = true
+					break
+				}
+			}
+			if claimed {
+				fmt.Printf("UNDECIDED property=%s function=%s reason=%s\n", prop, r.Name, r.Err)
+				bindingViol = append(bindingViol, [2]string{r.Name + "#contract", r.Err})
+				continue
+			}
 			fmt.Printf("UNDECIDED property=%s function=%s reason=%s\n", prop, r.Name, r.Err)
 			undecided = append(undecided, r.Name+": "+r.Err)
 			continue
@@ -296,6 +322,16 @@ func report(cf *checkFlags, eng *Eng, bl *Baseline, kf *KnownFile, results []*Fu
 	}
 	exit := 0
 	replayDir := filepath.Join(cf.verif, "replays", prop)
+	for _, bv := range bindingViol {
+		os.MkdirAll(replayDir, 0o755)
+		path := filepath.Join(replayDir, sanitize(bv[0])+".json")
+		rp := map[string]interface{}{"property": prop, "obligation": bv[0], "result": "contract-does-not-bind",
+			"solver_output": bv[1], "note": "the function had discharged obligations on the unchanged tree; its contract can no longer be evaluated on the current code, so none of them is established"}
+		b, _ := json.MarshalIndent(rp, "", " ")
+		os.WriteFile(path, b, 0o644)
+		fmt.Printf("VIOLATION property=%s replay=%s obligation=%s result=contract-does-not-bind no-failing-input-found\n", prop, path, bv[0])
+		exit = 1
+	}
 	for _, v := range violations {
 		ob := generated[v]
 		os.MkdirAll(replayDir, 0o755)
@@ -306,7 +342,10 @@ func report(cf *checkFlags, eng *Eng, bl *Baseline, kf *KnownFile, results []*Fu
 		if ob.ExpectSat {
 			rp["note"] = "vacuity: the function's preconditions are contradictory"
 		}
-		confirmed, detail := tryReplay(cf, eng, ob, rp)
+		confirmed, detail := false, "replay not attempted (-noreplay)"
+		if !cf.noreplay {
+			confirmed, detail = tryReplay(cf, eng, ob, rp)
+		}
 		if confirmed {
 			suffix = ""
 		}
@@ -319,9 +358,9 @@ func report(cf *checkFlags, eng *Eng, bl *Baseline, kf *KnownFile, results []*Fu
 	if len(errs) > 0 && nObl == 0 {
 		exit = 2
 	}
-	writeEvidence(cf, prop, nObl, nDis, len(violations), funcs, assumed, abstracted, trusted, undecided, knownHit, obs, solverSecs, solverCnt, wall, eng)
+	writeEvidence(cf, prop, nObl+len(bindingViol), nDis, len(violations)+len(bindingViol), funcs, assumed, abstracted, trusted, undecided, knownHit, obs, solverSecs, solverCnt, wall, eng)
 	fmt.Printf("property=%s tier=%s functions=%d obligations=%d discharged=%d violations=%d undecided=%d known=%d wall=%.1fs\n",
-		prop, cf.tier, len(funcs), nObl, nDis, len(violations), len(undecided), len(knownHit), wall)
+		prop, cf.tier, len(funcs), nObl+len(bindingViol), nDis, len(violations)+len(bindingViol), len(undecided), len(knownHit), wall)
 	return exit
 }
 
@@ -425,6 +464,21 @@ func splitOnAppend(ob *Obligation, cf *checkFlags, dir string, keep bool) bool {
 		ob.Seconds = a.Seconds + b.Seconds
 		ob.Output = "proved by cases on " + cond.Name
 		return true
+	}
+	return false
+}
+
+func mentionsStateRec(t *Term) bool {
+	if t == nil {
+		return false
+	}
+	if strings.HasPrefix(t.Op, "sr_") {
+		return true
+	}
+	for _, a := range t.Args {
+		if mentionsStateRec(a) {
+			return true
+		}
 	}
 	return false
 }
